@@ -83,6 +83,7 @@ def main():
     ap = argparse.ArgumentParser()
     ap.add_argument("--all-checks", action="store_true")
     ap.add_argument("--tier", default="quick")
+    ap.add_argument("--first-catch", action="store_true", help="stop at the first listed check that catches the change")
     ap.add_argument("--seed", default="0")
     ap.add_argument("filters", nargs="*")
     a = ap.parse_args()
@@ -134,6 +135,8 @@ def main():
             r = {"applied": True, "checks": {}}
             for prop in (ALL if a.all_checks else checks):
                 r["checks"][prop] = run_check(scratch, prop, "thorough" if name in THOROUGH_ONLY else a.tier)
+                if a.first_catch and r["checks"][prop]["caught"]:
+                    break       # (the remaining checks its author listed are not needed for the verdict "caught")
             if name in THOROUGH_ONLY:
                 r["tier"] = "thorough"
             r["caught_by"] = [p for p, v in r["checks"].items() if v["caught"]]
